@@ -97,3 +97,35 @@ def HASH(challenge):
     """The game client's handshake hash: the published formula with truncating remainder."""
     c = challenge + 1
     return 110905 + (tmod(c, 9) + 1) * tmod(11092004 - c, (tmod(c, 11) + 1) * 119) * 119 + tmod(c, 2004)
+
+
+# ---- windows-1252 with errors='replace': an external, stateless, pointwise codec.  Natively the
+# tables are CPython's; symbolically they are the uninterpreted functions E / D with range axioms.
+def CP_E(c):
+    """code point -> byte"""
+    return chr(c).encode("windows-1252", "replace")[0]
+
+
+def CP_D(b):
+    """byte -> code point"""
+    return ord(bytes([b]).decode("windows-1252", "replace"))
+
+
+# ---- chunked reading model (C05)
+def isNB(data, cs, r):
+    """r is the next break of the chunk starting at cs: first index >= cs holding 0xFF, else len."""
+    return (cs <= r and r <= len(data) and all(data[k] != 0xFF for k in range(cs, r))
+            and (r == len(data) or data[r] == 0xFF))
+
+
+def REM(r):
+    """remaining bytes of reader state r: up to the next break of the current chunk in chunked
+    mode, up to the end of data otherwise; never negative."""
+    if r._chunked_reading_mode:
+        return r._next_break - min(r._position, r._next_break)
+    return len(r._data) - r._position
+
+
+def TAKE(r, length):
+    """how many bytes a read of `length` consumes"""
+    return min(length, REM(r))
